@@ -32,7 +32,7 @@ def arg_values(k, tier, rng):
             x = (1 << i) + d
             if 0 <= x < top: vs.add(x)
     vs |= {0, 1, 2, 3, 8, 9, 10, 23, 24, 255, 256, 65535, 65536, top - 1, top - 2, top - 9, top - 10, top - 8}
-    for _ in range(300 if tier == 'thorough' else 40): vs.add(rng.next() % top)
+    for _ in range(3000 if tier == 'thorough' else 40): vs.add(rng.next() % top)
     return sorted(vs)
 
 
